@@ -900,6 +900,18 @@ func (r *poolRun) tick() {
 		}
 	}
 	r.step(before, "[OpTick]", "Tick")
+	// C15: after a whole housekeeping round no unused parked connection is left that is past its idle timeout
+	// (the round removes from the front while the most recently parked one is expired and the front carries no call)
+	s := r.t.VerifSnapshot()
+	for a, l := range s.Idle {
+		if len(l) == 0 || s.Closed {
+			continue
+		}
+		front, rear := l[0], l[len(l)-1]
+		if front.NumCalls == 0 && rear.Age > s.IdleConnTimeout+poolUnit {
+			r.e.fail("C15-expired-parked-connection-kept", fmt.Sprintf("after a housekeeping round %d unused connection(s) to %s are still parked although the most recently parked one has been idle for %d units (IdleConnTimeout %d)", len(l), a, int64(rear.Age/poolUnit), int64(s.IdleConnTimeout/poolUnit)), r.replay())
+		}
+	}
 }
 
 func (r *poolRun) backdate(units int64) {
@@ -995,12 +1007,17 @@ func (r *poolRun) busyFront(a string) {
 	r.grab(a)
 	r.grab(a)
 	r.backdate(60) // past KeepAlive (41), short of IdleConnTimeout (91)
+	if r.cfg[1] == 1 && r.cfg[0] >= 2 {
+		// an idle queue of one: one of the two is used again just now and stays active; it goes stale
+		// later, when the queue is full with the other one
+		r.call(a, false)
+	}
 	r.tick()
 	s := r.t.VerifSnapshot()
 	if os_getenv("VERIF_DEBUG") != "" {
 		fmt.Fprintf(os.Stderr, "busyFront: idle=%d active=%d cfg=%v\n", len(s.Idle[a]), len(s.Active[a]), r.cfg)
 	}
-	if len(s.Idle[a]) < 2 {
+	if len(s.Idle[a]) < 1 {
 		return
 	}
 	front := r.idOf(s.Idle[a][0])
@@ -1011,7 +1028,7 @@ func (r *poolRun) busyFront(a string) {
 			break
 		}
 	}
-	r.backdate(60) // now past IdleConnTimeout
+	r.backdate(60) // now past IdleConnTimeout for the parked ones, past KeepAlive for whatever stayed active
 	r.tick()
 	for k, h := range r.held {
 		if h.direct {
